@@ -226,6 +226,11 @@ def check_interp_surf(case, ctx):
             got = srf.evaluate_single((uk[i], vl[j]))
             ctx.check(all(abs(a - b) <= 1e-7 * big for a, b in zip(got, q)), "interpolation",
                       "surface at data index (%d,%d), parameters (%r,%r) is %r, data point %r" % (i, j, uk[i], vl[j], got, q))
+            if (i + j) % 3 == 0:
+                # the same point read as the zeroth derivative ("SKL[0][0] will be the surface point itself")
+                got0 = srf.derivatives(uk[i], vl[j], order=0)[0][0]
+                ctx.check(all(abs(a - b) <= 1e-7 * big for a, b in zip(got0, q)), "interpolation",
+                          "surface at data index (%d,%d), parameters (%r,%r) read as derivatives(order=0)[0][0] is %r, data point %r" % (i, j, uk[i], vl[j], got0, q))
 
 
 # ------------------------------------------------------------------------------------------------ approximation
@@ -342,6 +347,8 @@ def check_approx_surf(case, ctx):
     for (u, v), q in (((0.0, 0.0), Q[0]), ((0.0, 1.0), Q[nv - 1]), ((1.0, 0.0), Q[nv * (nu - 1)]), ((1.0, 1.0), Q[-1])):
         got = srf.evaluate_single((u, v))
         ctx.check(all(abs(a - b) <= 1e-10 * big for a, b in zip(got, q)), "corner-points", "corner (%r,%r) is %r, data corner %r" % (u, v, got, q))
+        got0 = srf.derivatives(u, v, order=0)[0][0]
+        ctx.check(all(abs(a - b) <= 1e-10 * big for a, b in zip(got0, q)), "corner-points", "corner (%r,%r) read as derivatives(order=0)[0][0] is %r, data corner %r" % (u, v, got0, q))
     # the boundary iso-curves at u = 0 and u = 1 are the curve approximations of the boundary data rows: they start and end on data
     P = [list(x) for x in srf.ctrlpts]
     ctx.check(len(P) == hu * hv, "net-count", "%d control points for a %dx%d net" % (len(P), hu, hv))
